@@ -145,6 +145,13 @@ def case_api(cls, params, rec):
 		# unrelated draws from both generators in between
 		numpy.random.rand(3)
 		_numba_draw()
+		# ... and an unrelated shuffle of other sequences of the same shape
+		# (every character present, many transitions): whatever it leaves
+		# behind must not influence the repeated call
+		rd = gen.pyrng("C02distract", L, A, params["n"])
+		D = to_ohe(numpy.array([[(j * 7 + b + rd.randrange(A)) % A
+			for j in range(L)] for b in range(B)]), A, X.dtype)
+		gen.call(f, D, **dict(kw, random_state=rd.randrange(1000)))
 		st2, val2 = gen.call(f, X, **kw)
 		if st2 != "ok" or not torch.equal(val, val2):
 			rec.violation(cls, params, {"what": "same integer seed, different "
